@@ -2,6 +2,13 @@
 // The generator rewrites the listed call sites (`v.iter().map(f).sum()` ...) to these functions; see DESIGN.md 3.2 E11.
 verus! {
 
+/// E8: primitive u64 `+` / `-` whose overflow is a panic (abort, A1; Cargo.toml sets overflow-checks = true for release):
+/// partial-correctness contract -- the function returns only if no overflow occurred, and then the result is exact.
+#[verifier::external_body]
+pub fn rt_add_u64(a: u64, b: u64) -> (r: u64) ensures a + b <= u64::MAX, r == a + b { a + b }
+#[verifier::external_body]
+pub fn rt_sub_u64(a: u64, b: u64) -> (r: u64) ensures a >= b, r == a - b { a - b }
+
 pub open spec fn seq_sum_u64(ws: Seq<u64>) -> nat decreases ws.len() {
     if ws.len() == 0 { 0 } else { seq_sum_u64(ws.drop_last()) + ws.last() as nat }
 }
